@@ -107,9 +107,11 @@ theorem valid_processOrphans (P : Params) (fuel : Nat) (s : NState) (q : List Na
           apply ihk
           unfold orphanStep
           split
-          · have := valid_acceptBlock P { acc.1 with orphans := acc.1.orphans.filter (·.id != o.id) } o ha
+          · have := valid_acceptBlock P acc.1 o ha
             simp only
-            split <;> exact this
+            split
+            · exact this
+            · exact ⟨this.1, this.2⟩
           · exact ha
       have hg := hstep (s.orphans.filter (·.prev == id)) (s, true, queue) h
       split
